@@ -21,7 +21,7 @@ def make_cases(tier, profile):
     spec = dict(sym_caps=False, sym_max_joins=False, sym_topic=False, sym_key=False, sym_limit=False, sym_lists=False,
                 plain_chans=['&y'] if tier == 'quick' else [],
                 nicks=['alice', 'bob', 'carol'] if tier == 'quick' else ['alice', 'bob', 'carol', 'erin'],
-                operators=[('opname', 'goodpw', None)])          # so that the leaving user may be an operator (any combination with +i, +w)
+                operators=[('opname', 'goodpw', None)], sym_capneg=True)          # so that the leaving user may be an operator (any combination with +i, +w)
     split = ['mem_alice_#x', 'mem_alice_&y', 'founder_alice_#x', 'operator_alice_#x']
     if tier != 'quick': split += ['voice_alice_#x', 'founder_alice_&y', 'operator_alice_&y', 'umode_oper_alice']
     base = dict(judges=J, then=['remove_user', 'drop_conn'], spec=spec, split=split)
